@@ -44,7 +44,7 @@ PROPS = {
                  args=lambda tier, seed, casedir, coq: ["split", "--n", str(q(tier, 300, 10000)), "--seed", str(seed)], coq_timeout=3000),
             dict(harness="bp", name="batch",
                  args=lambda tier, seed, casedir, coq: ["batch", "--n", str(q(tier, 300, 6000)), "--seed", str(seed)], coq_timeout=3000),
-            bp_sys("C05", 40, 1000),
+            bp_sys("C05", 120, 1500),
         ],
         rule="split: random forests (1-4 resources, 0-3 scopes, 0-5 items, empty containers, all metric types incl. empty) cut at a random "
              "size through the real splitTraces/Logs/Metrics, model output compared cell for cell (non-trivial = a real split, distinct by content); "
